@@ -172,6 +172,14 @@ func (w *world) quiesce(r *rand.Rand, withProbe bool) bool {
 				w.mu.Unlock()
 				continue
 			}
+			if pos != "waiting" && pos != "creating" {
+				// not parked in one of acquire's selects: the position is not one the
+				// starvation oracle is defined for
+				w.mu.Lock()
+				w.inconcl = append(w.inconcl, fmt.Sprintf("%s blocked at an unexpected position (%s) after drain", a.name(), pos))
+				w.mu.Unlock()
+				continue
+			}
 			class := w.capacityClass(snap)
 			w.mu.Lock()
 			w.violate("C28", "starved-waiter|"+class, fmt.Sprintf("%s blocked in acquire (%s) at a fully drained state: total=%d max=%d free=%v waiters=%d; %s",
